@@ -417,6 +417,10 @@ impl fmt::Display for MdnsResponseError {
 
 impl error::Error for MdnsResponseError {}
 
+#[cfg(libp2p_verif)]
+#[path = "verif_c55.rs"]
+pub mod verif_c55;
+
 #[cfg(test)]
 mod tests {
     use hickory_proto::op::Message;
